@@ -637,6 +637,9 @@ def _iso_files(sb):
         ("inline indentation", "i_tab.sql", "-- sqlfluff:indentation:tab_space_size:2\n" + BODY, None),
         ("inline layout", "i_lay.sql", "-- sqlfluff:layout:type:comma:line_position:leading\n" + BODY, None),
         ("inline dialect", "i_dia.sql", "-- sqlfluff:dialect:tsql\n" + BODY, None),
+        # the directive prefix is also accepted without the space (process_raw_file_for_config); seed C27_C
+        ("inline rule option, no space", "i_cap2.sql", "--sqlfluff:rules:capitalisation.keywords:capitalisation_policy:upper\n" + BODY, None),
+        ("inline max_line_length, no space", "i_mll2.sql", "--sqlfluff:max_line_length:30\n" + BODY, None),
         ("nested .sqlfluff", os.path.join("nest", "n.sql"), BODY, (".sqlfluff", nested_cfg)),
         ("plain in sub", os.path.join("sub", "p2.sql"), BODY, None),
     ]
@@ -708,7 +711,13 @@ def bounded_isolation(tier, seed):
                     evaluations += 1
                     for pos, k in enumerate(seq):
                         rel, text = files[k][1], files[k][2]
+                        cfg_before = repr(_plain(lnt.config._configs))
                         g = _sig(lnt.lint_string(text, fname=rel).get_violations())
+                        if repr(_plain(lnt.config._configs)) != cfg_before:
+                            # "settings never leak": the linter's own config is not the file's config
+                            F.add(f"{PROP}/isolation/linter-config-unchanged/lint_string", "sqlfluff.core.linter.linter:Linter.parse_string",
+                                  dict(label, position=pos, file=rel, text=text, config_before=cfg_before[:600],
+                                       config_after=repr(_plain(lnt.config._configs))[:600]))
                         if g != solo_s[rel]:
                             F.add(f"{PROP}/isolation/sequence/lint_string", "sqlfluff.core.linter.linter:Linter.lint_string",
                                   dict(label, position=pos, file=rel, text=text, violations_in_this_history=g, violations_alone=solo_s[rel]))
